@@ -77,15 +77,20 @@ def oracle(case, obs):
     generic = False
     prev = {"mode": case["login"], "rounds": 0, "loglen": 0, "belief": "DUMMY"}
     tainted = False      # an earlier get_prompt round met the finding's predicate and the belief has been wrong since
+    bt = base.Belief()   # the narrow predicate: only an unknown belief that the code documents is the known finding
+    cmds = {r[2] for r in rows if r[1]} | {r[3] for r in rows if r[1]}
     for i, (op, rec) in enumerate(zip(case["ops"], obs["recs"])):
         op = tuple(op)
         seg = obs["log"][prev["loglen"]:rec["loglen"]]
         probes = obs["probe"][prev["rounds"]:rec["rounds"]]
-        hz = any(bel == "DUMMY" and dest is not None and mode != dest and key.get(mode) is not None and key.get(mode) == key.get(dest)
-                 for bel, mode, dest in probes)
+        hz = bt.hazard(probes, key, obs.get("levels"))
+        bt.after(op, rec)
         tainted = tainted or hz
-        flags = {"hazard": tainted}
+        flags = {"hazard": tainted, "overlap": bt.overlap}
         k = op[0]
+        if k in ("O", "X"):
+            # the platform's on_open / on_close hook ran: its lines belong at the default desired level
+            out += base.hook_line_violations(f"op {i} {'open()' if k == 'O' else 'close()'}: ", seg, cmds, case["sec"], default, flags)
         asked = None
         if k in ("c", "C"):
             asked = None if generic else default
@@ -101,7 +106,7 @@ def oracle(case, obs):
             out.append((f"op {i} {op}: ended with {rec['out']}", flags))
         # a cooperative device never makes a valid request fail: the lines have to reach it (in the level named)
         known = base_names + registered
-        wants = {"A": op[1] if k == "A" else None, "G": asked, "g1": asked, "I": asked, "c": asked, "C": asked}.get(k)
+        wants = {"A": op[1] if k == "A" else None, "G": asked, "g1": asked, "I": asked, "c": asked, "C": asked, "O": default, "X": default}.get(k)
         refused_by_design = k in ("G", "g1") and generic
         if cooperative and rec["out"] == "priv" and not refused_by_design and (wants is None or wants in known):
             out.append((f"op {i} {op}: ScrapliPrivilegeError although the device cooperates and the level {wants!r} exists", flags))
@@ -124,7 +129,10 @@ def oracle(case, obs):
 
 
 def matcher(case):
-    if (case.get("flags") or {}).get("hazard"):
+    f = case.get("flags") or {}
+    if f.get("hazard") and f.get("overlap"):
+        return "F24"
+    if f.get("hazard"):
         return "F11"
     return None
 
@@ -167,6 +175,9 @@ def gen_cases(ck, tier):
             blocked = [((m, cmd), rng.choice(["refuse", "ignore"])) for m, cmd in rng.sample(tr, min(k, len(tr)))]
             dpw, sec, pwl = rng.choice(base.PW_VARIANTS + [(None, "", 3)] * 4)
             cases.append(mk(p, rng.choice(logins), h, blocked, dpw, sec, pwl, names=base.rand_names(rng, p)))
+    for p in privgen.PLATFORMS:
+        cases += list(lifecycle_histories(rng, p, 3 if tier == "quick" else 4))
+        cases += list(lifecycle_histories(rng, p, 0, budget=80 if tier == "quick" else 2000))
     for p, sets in SESSION_NAME_SETS.items():
         for names in sets:
             cases += list(session_histories(rng, p, names, 4 if tier == "quick" else 5))
@@ -174,7 +185,10 @@ def gen_cases(ck, tier):
     return cases
 
 
-SESSION_NAME_SETS = {"cisco_nxos": [("sessA", "sessB")], "arista_eos": [("sessA", "other-b"), ("sessionA1", "sessionA2")]}
+SESSION_NAME_SETS = {"cisco_nxos": [("sessA", "sessB")],
+                     "arista_eos": [("sessA", "other-b"), ("sessionA1", "sessionA2"),
+                                    # prefix- and case-related names: different pattern text, same prompts (outside the model's domain)
+                                    ("abc", "abcd"), ("sess", "SESS")]}
 
 
 def session_histories(rng, platform, names, nmax, budget=None):
@@ -193,6 +207,38 @@ def session_histories(rng, platform, names, nmax, budget=None):
         for _ in range(budget):
             yield mk(platform, rng.choice(login_levels(platform)), [rng.choice(more) for _ in range(rng.choice([3, 4, 5, 6, 8]))],
                      names=base.rand_names(rng, platform))
+
+
+def lifecycle_histories(rng, platform, nmax, budget=None):
+    """one driver object through open / operations / close / open again ... with the platform's REAL on_open / on_close hooks; the
+    device starts every session at its login level while the object keeps what it remembered (belief, generic mode, sessions)"""
+    c = base.ctx(platform)
+    names = [r[0] for r in c["rows"]]
+    logins = [n for n in names if base.unambiguous(c["rows"], n)]
+    cl = config_levels(platform, [])
+    alpha = [("c", "show a"), ("G", False, cl[-1], ["cfg a"]), ("A", names[-1]), "XO"]
+    more = alpha + [("G", True, cl[0], ["cfg a", "badline"]), ("I", cl[-1] or "configuration", ["int a"]), ("g", True), ("g", False),
+                    ("C", False, ["show a", "show b"])] + [("A", n) for n in names]
+
+    def expand(h):
+        ops = [("O",)]
+        for t in h:
+            ops += [("X",), ("O",)] if t == "XO" else [t]
+        return ops
+    if budget is None:
+        for login in logins:
+            for n in range(1, nmax + 1):
+                for h in itertools.product(alpha, repeat=n):
+                    if "XO" in h:
+                        yield dict(mk(platform, login, expand(h)), hooks=True)
+    else:
+        tr = base.transitions(c["rows"])
+        for _ in range(budget):
+            h = [rng.choice(more + ["XO", "XO"]) for _ in range(rng.choice([2, 3, 4, 6, 8]))]
+            k = rng.choice([0, 0, 0, 1])
+            blocked = [((m, cmd), rng.choice(["refuse", "ignore"])) for m, cmd in rng.sample(tr, min(k, len(tr)))]
+            dpw, sec, pwl = rng.choice(base.PW_VARIANTS + [(None, "", 3)] * 4)
+            yield dict(mk(platform, rng.choice(logins), expand(h), blocked, dpw, sec, pwl, names=base.rand_names(rng, platform)), hooks=True)
 
 
 def run_sync(case):
@@ -230,6 +276,9 @@ def model_ulog_check(case, mrecs, mulog, obs):
     ulines = set()
     for op in case["ops"]:
         ulines.update(op_user_lines(tuple(op)))
+    if case.get("hooks"):       # the hooks' send_command / send_input lines are recorded by the model like command lines
+        for hk in (base.ctx(case["platform"])["hooks"] or {}).values():
+            ulines.update(s[1] for s in hk[0] + hk[1] if s[0] in ("command", "input"))
     real = [(m, l) for m, l in obs["log"] if l in ulines]
     mod = [(act, ln) for _, act, ln, _ in mulog]
     return None if real == mod else f"ghost user-line log: device={real} model={mod}"
@@ -333,11 +382,16 @@ def run(tier, seed):
         o = run_sync(c)
         obs_s.append(o)
         reqs.append(base.request(c, o))
-    aidx = [i for i in range(len(cases)) if i % 4 == 0]
+    aidx = [i for i in range(len(cases)) if base.want_async(i, tier, cases[i])]
 
     async def all_async():
         return [await base.run_async(cases[i]) for i in aidx]
     obs_a = dict(zip(aidx, asyncio.run(all_async())))
+    areq = {}
+    for i in aidx:
+        if base.stacks_differ(cases[i]):
+            areq[i] = len(reqs)
+            reqs.append(base.request(cases[i], obs_a[i], "async"))
     try:
         mout = run_model("C03", reqs)
     except Exception as e:  # noqa: BLE001
@@ -351,7 +405,7 @@ def run(tier, seed):
         outs = [r["out"] for r in obs_s[i]["recs"]]
         ck.case(json.dumps(c, sort_keys=True), nontrivial=len(kinds) >= 2 and sends >= 1,
                 sample={k: c.get(k) for k in ("platform", "host", "user", "login", "ops", "blocked", "dpw", "sec")},
-                tags=(c["platform"], f"len={min(len(kinds), 12)}", f"login={c['login']}", "blocked" if c["blocked"] else "coop", "host-has-upper" if any(ch.isupper() for ch in c.get("host", "")) else "host-lower",
+                tags=(c["platform"], f"len={min(len(kinds), 12)}", f"login={c['login']}", "blocked" if c["blocked"] else "coop", "reopened-with-hooks" if c.get("hooks") else "single-session", "host-has-upper" if any(ch.isupper() for ch in c.get("host", "")) else "host-lower",
                       *{f"op={k}" for k in kinds}, *{f"out={o}" for o in outs}))
         for stack, o in runs:
             v = oracle(c, o)
@@ -360,8 +414,12 @@ def run(tier, seed):
             for what, fl in v:
                 ck.violation(dict(c, stack=stack, flags=fl, observed={"recs": o["recs"], "log": o["log"]}), f"{stack}: {what}", matcher)
             if mout is not None:
-                mrecs, mlog, mulog = decode_reply(mout[i])
-                d = compare(o, mrecs, mlog) or model_ulog_check(c, mrecs, mulog, o)
+                mrecs, mlog, mulog = decode_reply(mout[areq[i] if stack == "async" and i in areq else i])
+                d = compare(o, mrecs, mlog) or model_ulog_check(c, mrecs, mulog, o) or base.graph_check(c, o)
+                if base.outside_model(c):
+                    ck.extra["advisory_outside_model_cases"] = ck.extra.get("advisory_outside_model_cases", 0) + 1
+                    ck.extra["advisory_outside_model_disagreements"] = ck.extra.get("advisory_outside_model_disagreements", 0) + bool(d)
+                    continue
                 if d:
                     ck.disagree(f"Priv model vs real {stack} driver", dict(c, stack=stack), d)
                 else:
